@@ -218,8 +218,10 @@ Section B4.
     cbn. rewrite (Hp u (or_introl eq_refl)). apply IH. intros w Hw. apply Hp. right. exact Hw.
   Qed.
 
-  Lemma icp_same_ref v v' l : v_loc v' = v_loc v -> v_ref v' = v_ref v -> is_correct_position v' l = is_correct_position v l.
-  Proof. intros H1 H2. unfold is_correct_position. rewrite H1, H2. reflexivity. Qed.
+  Lemma icp_same_ref v v' l :
+    v_loc v' = v_loc v -> v_ref v' = v_ref v -> v_init v' = v_init v -> v_tab v' = v_tab v ->
+    is_correct_position v' l = is_correct_position v l.
+  Proof. intros H1 H2 H3 H4. unfold is_correct_position, init_hides. rewrite H1, H2, H3, H4. reflexivity. Qed.
 
   Lemma no_name_before n l pre v post :
     (forall u, In u pre -> var_hit n l u = false) ->
@@ -267,8 +269,9 @@ Section B4.
         destruct (env_find en n) as [[[a' d'] f']|]; [|discriminate]. cbn in Heq. injection Heq as -> ->.
         rewrite Hd. eauto. }
       destruct Hen as [a' Hen].
-      unfold is_correct_position in *. cbn [v_loc v_ref].
+      unfold is_correct_position in *. unfold init_hides in *. cbn [v_loc v_ref v_init v_tab].
       destruct (loc_before (v_loc v) l); [|discriminate]. cbn [negb] in *.
+      match goal with |- (if ?ih then false else _) = true => destruct ih; [discriminate|] end.
       destruct (ref_of_exp e) as [|fl'|rl|rl] eqn:Er; [reflexivity| | |].
       + assert (Hlc : loc_contains (exp_loc e) l = false) by (apply (Hb1 a' (v_loc v) e eq_refl Hen); rewrite Er; discriminate).
         destruct e; try discriminate Er. cbn in Er, Hlc. injection Er as <-. rewrite Hlc.
@@ -430,15 +433,15 @@ Section B4.
         apply (IH es_r' (S k) _ ens); auto.
   Qed.
 
-  (* ---- local: all the initialisers are visited in the environment of the statement; their class tags (CB1) only
-     add to what the plain occurrences carry *)
+  (* ---- local: all the initialisers are visited in the environment of the statement; they carry no class tag of their own
+     (since fixes/C05-own-initialiser.diff) *)
   Lemma Le_local_inits en ns (f : exp -> list socc) : forall es k,
     Le (flat_map f es)
        (concat (index_map (fun i eo => tag_local_init en ns i (fst eo) (snd eo)) k (map (fun e => (e, f e)) es))).
   Proof.
     induction es as [|e r IH]; intros k; [apply Le_refl|].
     cbn [map index_map concat flat_map fst snd]. apply Le_app_both; [|apply IH].
-    unfold tag_local_init. apply Le_tag_if.
+    unfold tag_local_init. apply Le_refl.
   Qed.
 
   (* ------------------------------------------------------------------ the induction *)
